@@ -60,16 +60,15 @@ def unlinkFrom : Nat → World → LId → Option VId → Option World
     else some w
 end
 
-/-- fuel handed to every public entry point by the driver (far above the constant
-    shown sufficient in `EG.Proofs.StructRefine`) -/
-def fuel : Nat := 8
+/-- the first half of `TwoEndedLink._replace_end`: invalidate, `self._vertices[idx] = new`,
+    invalidate -/
+def rawSetEnd (w : World) (l : LId) (idx : Nat) (new : Option VId) : World :=
+  ((w.invalidateEnds l).setEnds l ((w.ends l).set idx new)).invalidateEnds l
 
 /-- `TwoEndedLink._replace_end(self=l, idx, new)` -/
 def replaceEnd (f : Nat) (w : World) (l : LId) (idx : Nat) (new : Option VId) : Option World :=
   let old := (w.ends l).getD idx none
-  let w := w.invalidateEnds l
-  let w := w.setEnds l ((w.ends l).set idx new)
-  let w := w.invalidateEnds l
+  let w := rawSetEnd w l idx new
   let w? : Option World :=
     match old with
     | none => some w
@@ -81,14 +80,6 @@ def replaceEnd (f : Nat) (w : World) (l : LId) (idx : Nat) (new : Option VId) : 
     | none => some w
     | some n => if l ∈ w.links n then some w else addToLink f w n l
 
-/-- `e.v1 = new` (idx 0) / `e.v2 = new` (idx 1) on a two-ended link: evaluates
-    `self.v2` first (IndexError when an end is missing, nothing touched). -/
-def setEnd (f : Nat) (w : World) (l : LId) (idx : Nat) (new : Option VId) : Except Err World :=
-  if (w.ends l).length < 2 then .error .index else
-    match replaceEnd f w l idx new with
-    | none => .error .recursion
-    | some w => .ok w
-
 /-- `TwoEndedLink.other(self=l, end)`; `Link` itself has no such method. -/
 def other (w : World) (l : LId) (e : VId) : Except Err (Option VId) :=
   if (w.lcls l).kind = .nary then .error .attribute else
@@ -99,21 +90,6 @@ def other (w : World) (l : LId) (e : VId) : Except Err (Option VId) :=
 /-- allocate a link object with no ends yet (`BaseObject.__init__` + `_vertices = []`) -/
 def allocLink (w : World) (c : LCls) : World × LId :=
   ({ w with nL := w.nL + 1, lcls := upd w.lcls w.nL c, ends := upd w.ends w.nL [] }, w.nL)
-
-/-- `Link.__init__(vertices=vs)` after allocation: `for vert in vertices: self.add_vertex(vert)` -/
-def addVertices (f : Nat) (w : World) (l : LId) : List (Option VId) → Option World
-  | [] => some w
-  | x :: xs => match addVertex f w l x with
-    | none => none
-    | some w => addVertices f w l xs
-
-/-- `cls(v1, v2)` for a two-ended class, `NLink(vertices=vs)` for the n-ary class.
-    (Ill-typed arguments are rejected by the caller before anything is touched.) -/
-def newLink (f : Nat) (w : World) (c : LCls) (vs : List (Option VId)) : Except Err (World × LId) :=
-  let (w, l) := allocLink w c
-  match addVertices f w l vs with
-  | none => .error .recursion
-  | some w => .ok (w, l)
 
 end M
 end EG
